@@ -11,7 +11,7 @@ import common
 import driver
 
 PROPERTIES_FILE = "Properties/Properties_C20.v"
-COQ_DEPS = ["Model/Transform.vo", "Proofs/Transform_proofs.vo"]
+COQ_DEPS = ["Model/Transform.vo", "Proofs/Transform_proofs.vo", "Proofs/Transform32_proofs.vo", "Proofs/TransformUtf_proofs.vo"]
 GEN_MODULES = ["Gen_transform"]
 LEVEL = "proof"
 COQ_TIMEOUT = 1500
